@@ -69,7 +69,7 @@ FAULT_PROPS = {
     "PROVIDED": {"C09", "C10", "C08"},
     "SHAPE_DICT": {"C01", "C03", "C05", "C10", "C11", "C13", "C14", "C15", "C16"},
     "SHAPE_SET": {"C03", "C05", "C07", "C08", "C10", "C14", "C15", "C16"},
-    "DUP_KEY": {"C04", "C05", "C15", "C16", "C01", "C07", "C11"},
+    "DUP_KEY": None,  # every property quantifies over reachable states, and those have pairwise different keys
     "EXTEND_REF": {"C16"},
     "MIRI": None,
     "CRASH": None,  # every property
@@ -101,10 +101,14 @@ def build_model():
     return True, r.stdout + r.stderr
 
 
-def build_harness():
+def build_harness(std=False):
+    """std=True: the same harness against micromap built with its `std` feature (C06 quantifies over both),
+    in its own target directory"""
     msgs = []
     for prof in ("debug", "release"):
         flag = "--release" if prof == "release" else ""
+        if std:
+            flag += f" --features std --target-dir {CACHE}/target-std"
         r = sh(f"cd {ROOT}/harness && cargo build --offline {flag} 2>&1")
         if r.returncode != 0:
             return False, r.stdout[-4000:]
@@ -214,7 +218,7 @@ def run_model(cases_path, debug, out_path):
     return r.returncode == 0
 
 
-def run_impl(cases_path, prof, out_path, faults_path, limit=None):
+def run_impl(cases_path, prof, out_path, faults_path, limit=None, target="target"):
     """run the harness; a crash or a hang (a broken build can loop or fault on memory it should not touch)
     is reported with the case the marker file names"""
     marker = out_path + ".marker"
@@ -224,7 +228,7 @@ def run_impl(cases_path, prof, out_path, faults_path, limit=None):
         except OSError:
             n = 1000
         limit = 60 + n // 20
-    cmd = f"{CACHE}/target/{prof}/mm-harness {cases_path} {faults_path} {marker}"
+    cmd = f"{CACHE}/{target}/{prof}/mm-harness {cases_path} {faults_path} {marker}"
     crash = None
     with open(out_path, "w") as fo:
         p = subprocess.Popen(cmd.split(), stdout=fo, stderr=subprocess.DEVNULL, env=ENV)
@@ -276,30 +280,48 @@ def counters_and_drops(lines):
 
 
 def add_faults(base_cases, tmp, kinds=(1, 2, 3, 4), limit=None):
-    """every single-fault position of every base case"""
+    """every single-fault position of every base case.  Variants of histories that use the unsafe fast paths keep
+    them when the model (release profile) says the variant never leaves their contract (no UB outcome), and fall
+    back to the safe rewriting otherwise."""
     p = tmp + ".base"
     with open(p, "w") as f:
         f.write("\n".join(base_cases) + "\n")
     run_model(p, 1, p + ".m")
     obs = read_obs(p + ".m")
     out = []
+    unsafe_idx = []
+    # a limited suite gets the fault positions of `limit` base histories spread evenly over the suite
+    nb = len(base_cases)
+    chosen = set(range(nb)) if limit is None or limit >= nb else set((i * nb) // limit for i in range(limit))
     for ci, line in enumerate(base_cases):
         n_eq, n_clone, n_call, drops = counters_and_drops(obs.get(ci, []))
         out.append(line)
-        if limit is not None and ci >= limit:
+        if limit is not None and ci not in chosen:
             continue
+        pos = []
         if 1 in kinds:
-            for k in range(n_eq):
-                out.append(gen.case_with_fault(line, 1, k))
+            pos += [(1, k) for k in range(n_eq)]
         if 2 in kinds:
-            for k in range(n_clone):
-                out.append(gen.case_with_fault(line, 2, k))
+            pos += [(2, k) for k in range(n_clone)]
         if 3 in kinds:
-            for k in sorted(drops):
-                out.append(gen.case_with_fault(line, 3, k))
+            pos += [(3, k) for k in sorted(drops)]
         if 4 in kinds:
-            for k in range(n_call):
-                out.append(gen.case_with_fault(line, 4, k))
+            pos += [(4, k) for k in range(n_call)]
+        uns = gen.has_unsafe_ops(line)
+        for fk, fa in pos:
+            if uns:
+                unsafe_idx.append((len(out), line, fk, fa))
+            out.append(gen.case_with_fault(line, fk, fa))
+    if unsafe_idx:
+        q = tmp + ".keep"
+        with open(q, "w") as f:
+            f.write("\n".join(gen.case_with_fault(l, fk, fa, keep_unsafe=True) for (_, l, fk, fa) in unsafe_idx) + "\n")
+        run_model(q, 0, q + ".m")
+        kobs = read_obs(q + ".m")
+        for j, (oi, l, fk, fa) in enumerate(unsafe_idx):
+            lines = kobs.get(j, [])
+            if lines and not any(ln.split()[2:3] == ["3"] for ln in lines):
+                out[oi] = gen.case_with_fault(l, fk, fa, keep_unsafe=True)
     return out
 
 
@@ -394,7 +416,7 @@ def shrink(case, still_fails):
     return " ; ".join(segs)
 
 
-def one_case_fails(prop, tmp):
+def one_case_fails(prop, tmp, observable=False):
     """predicate used for shrinking: does a single case show a fault of this
     property's kinds or a model/implementation difference"""
     def f(case):
@@ -406,7 +428,8 @@ def one_case_fails(prop, tmp):
             ok, crash = run_impl(p, prof, p + ".i", p + ".f", limit=10)
             if not ok:
                 return True
-            if open(p + ".m").read() != open(p + ".i").read():
+            a, b = open(p + ".m").read().split("\n"), open(p + ".i").read().split("\n")
+            if (strip_internal(a) != strip_internal(b)) if observable else (a != b):
                 return True
             for ln in open(p + ".f"):
                 if ln.startswith("FAULT") and fault_relevant(prop, ln):
@@ -605,6 +628,17 @@ def load_known():
     return known
 
 
+STAGES = []
+
+
+def stage_seconds():
+    out = {}
+    ts = STAGES + [("end", time.time())]
+    for (n, t), (_, t2) in zip(ts, ts[1:]):
+        out[n] = round(t2 - t, 1)
+    return out
+
+
 def check(prop, tier, replay=None):
     t0 = time.time()
     seed = int(os.environ.get("VERIF_SEED", "20260930"))
@@ -614,6 +648,7 @@ def check(prop, tier, replay=None):
     violations = []   # (text, replay path, has_input)
     notes = []
 
+    STAGES.append(("coq_make", time.time()))
     # 0. the model side is rebuilt whenever the development changed
     ok, msg = build_model()
     if not ok:
@@ -623,6 +658,7 @@ def check(prop, tier, replay=None):
         write_evidence(prop, tier, seed, {"notes": ["coq build failed"]}, {}, [], 0, 0, 0, 0, t0, 1, ["coq build failed"])
         return 1
 
+    STAGES.append(("proof_gate", time.time()))
     # 1. proof gate
     gate_ok, gate = proof_gate(prop)
     if not gate_ok:
@@ -637,6 +673,7 @@ def check(prop, tier, replay=None):
             gate_ok = False
             gate["notes"].append(chk_note)
 
+    STAGES.append(("cargo_build", time.time()))
     # 2. build the implementation side from the current /repo
     ok, msg = build_harness()
     if not ok:
@@ -646,6 +683,7 @@ def check(prop, tier, replay=None):
         write_evidence(prop, tier, seed, gate, {}, [], 0, 0, 0, 0, t0, 1, ["harness build failed"])
         return 1
 
+    STAGES.append(("generate_cases", time.time()))
     # 3. cases
     if replay:
         cases = [l.strip() for l in open(replay) if l.strip() and not l.startswith("#") and ";" in l]
@@ -660,22 +698,52 @@ def check(prop, tier, replay=None):
         base = gen.suite(prop, rng, tier)
         if prop in FAULT_SUITES:
             base = add_faults(base, tmp, FAULT_SUITES[prop], None if prop == "C04" else ((60 if tier == "quick" else 600) if prop in ("C10", "C15", "C16") else (30 if tier == "quick" else 300)))
+        else:
+            # every other suite: all fault kinds for a few of ITS OWN histories (post-panic states of the operations
+            # the property is about, unsafe fast paths included where the model says the contract still holds)
+            base = add_faults(base, tmp, (1, 2, 3, 4), 12 if tier == "quick" else 150)
+        if prop != "C04":
+            # states reached through a caught panic belong to "every reachable state" of every property: every
+            # fault position of the clone / known-finding bases, and (quick tier) a property-dependent quarter of
+            # the fault positions of the other panic-slice bases; C04's own suite has all of them anyway
+            nfix = len(gen.known_fault_bases()) + len(gen.clone_fault_bases())
+            pb = gen.panic_slice_bases()
+            fixed = add_faults(pb[:nfix], tmp + "ps1", (1, 2, 3, 4), None)
+            rest = add_faults(pb[nfix:], tmp + "ps2", (1, 2, 3, 4), None)
+            if tier == "quick":
+                k = int(prop[1:])
+                rest = [c for i, c in enumerate(rest) if (i + k) % 4 == 0]
+            base = fixed + rest + base
         cases = corpus + base
     cpath = tmp + ".cases"
     with open(cpath, "w") as f:
         f.write("\n".join(cases) + "\n")
 
+    STAGES.append(("run_model_and_impl", time.time()))
     # 4. run both sides, both profiles
     run_stats = {"calls": 0, "panicking_calls": 0, "cases_with_injected_fault_fired": 0, "objects_tracked_by_ledger": 0}
     diffs = []
+    obs_diffs = []   # differences in what a caller can observe, on histories without injected faults or lying ==
     all_faults = []
     validated = 0
     model_obs1 = None
-    for prof, dbg in (("debug", 1), ("release", 0)):
+    variants = [("debug", 1, "target"), ("release", 0, "target")]
+    if prop == "C06" and not replay:
+        # C06 quantifies over "std feature on and off": the same suite and the same oracles on a build with the feature
+        oks, msgs = build_harness(std=True)
+        if oks:
+            variants += [("debug", 1, "target-std"), ("release", 0, "target-std")]
+            notes.append("suite and shape oracles also run on micromap built with --features std")
+        else:
+            rp = f"{OUT}/replay/{prop}-build-std.txt"
+            open(rp, "w").write("the harness does not build against /repo with the std feature:\n" + msgs)
+            violations.append(("build with the std feature", rp, False))
+    for prof0, dbg, tdir in variants:
+        prof = prof0 + ("+std" if tdir != "target" else "")
         mp, ip, fp = f"{tmp}.{prof}.m", f"{tmp}.{prof}.i", f"{tmp}.{prof}.f"
         if not run_model(cpath, dbg, mp):
             notes.append("model runner failed")
-        ok, crash = run_impl(cpath, prof, ip, fp)
+        ok, crash = run_impl(cpath, prof0, ip, fp, target=tdir)
         mo, io = read_obs(mp), read_obs(ip)
         if dbg == 1:
             model_obs1 = mo
@@ -685,6 +753,8 @@ def check(prop, tier, replay=None):
         for ci in range(len(cases)):
             if mo.get(ci) != io.get(ci):
                 diffs.append((prof, ci))
+                if honest_case(cases[ci]) and strip_internal(mo.get(ci)) != strip_internal(io.get(ci)):
+                    obs_diffs.append((prof, ci))
             else:
                 validated += 1
         if os.path.exists(fp):
@@ -699,11 +769,13 @@ def check(prop, tier, replay=None):
                         run_stats["cases_with_injected_fault_fired"] += int(m.group(3))
                         run_stats["objects_tracked_by_ledger"] += int(m.group(4))
 
+    STAGES.append(("shape_oracles", time.time()))
     # 4b. element-shape oracles (no-Drop types with an observable Clone, ZST, Copy, large, heap-owning)
     if not replay:
-        for prof in ("debug", "release"):
+        for prof0, dbg, tdir in variants:
+            prof = prof0 + ("+std" if tdir != "target" else "")
             fp = f"{tmp}.{prof}.shapes"
-            r = sh(f"{CACHE}/target/{prof}/mm-harness --shapes {fp}", timeout=120)
+            r = sh(f"{CACHE}/{tdir}/{prof0}/mm-harness --shapes {fp}", timeout=120)
             if r.returncode != 0:
                 all_faults.append((prof, -1, f"FAULT -1 op=shapes CRASH the shape scenario died ({prof} build)"))
             elif os.path.exists(fp):
@@ -711,6 +783,7 @@ def check(prop, tier, replay=None):
                     if ln.startswith("FAULT"):
                         all_faults.append((prof, -1, ln.strip()))
 
+    STAGES.append(("miri", time.time()))
     # 4c. thorough tier: replay a sample under Miri (the implementation-side observable closest to the model's UB
     #     outcome); Miri's trace must equal the model's as well
     miri_info = {}
@@ -722,6 +795,7 @@ def check(prop, tier, replay=None):
             for ci in miri_info["diff_cases"][:3]:
                 diffs.append(("miri", ci))
 
+    STAGES.append(("kernel_sample", time.time()))
     # 5. kernel cross-check of the extracted runner
     ksample, kfails = (0, [])
     if not replay:
@@ -729,6 +803,7 @@ def check(prop, tier, replay=None):
         if kfails:
             notes.append("kernel evaluation disagrees with the extracted runner: " + kfails[0][1][-300:])
 
+    STAGES.append(("verdict", time.time()))
     # 6. verdict
     rel_faults = [(p, ci, ln) for (p, ci, ln) in all_faults if fault_relevant(prop, ln)]
     known = load_known()
@@ -743,7 +818,7 @@ def check(prop, tier, replay=None):
         if ci < 0:
             case = ("# element-shape scenario of harness/src/shapes.rs; re-run: " +
                     ("cd harness && MIRIFLAGS='-Zmiri-ignore-leaks -Zmiri-disable-isolation' cargo +nightly miri run --offline -- --shapes /dev/stdout"
-                     if prof == "miri" else ".cache/target/" + prof + "/mm-harness --shapes /dev/stdout"))
+                     if prof == "miri" else ".cache/target" + ("-std" if prof.endswith("+std") else "") + "/" + prof.split("+")[0] + "/mm-harness --shapes /dev/stdout"))
         small = shrink(case, fails) if case and ci >= 0 and len(reported) <= 3 else case
         h = hashlib.sha1(small.encode()).hexdigest()[:10]
         rp = f"{OUT}/replay/{prop}-{h}.case"
@@ -760,8 +835,15 @@ def check(prop, tier, replay=None):
     diff_cases = sorted(set(ci for _, ci in diffs))
     if diff_cases and not violations:
         # the model and the implementation disagree; no direct oracle fired.
-        ci = diff_cases[0]
-        small = shrink(cases[ci], fails)
+        # Which difference?  Results, contents, identities, drop / clone events of a call are what a caller observes;
+        # the callback counters printed at teardown (how many == / Clone / closure calls were made) are internal,
+        # and fault positions and lying answers are keyed by them.  A history WITHOUT injected fault or lying == whose
+        # observable part differs is a failing input of a functional property; if only counters differ (or only
+        # fault / adversarial variants, whose indexing the counters shift) the tie is broken but no failing input is
+        # known.
+        obs_cases = sorted(set(ci for _, ci in obs_diffs))
+        ci = obs_cases[0] if obs_cases else diff_cases[0]
+        small = shrink(cases[ci], one_case_fails(prop, tmp, observable=True) if obs_cases else fails)
         h = hashlib.sha1(small.encode()).hexdigest()[:10]
         rp = f"{OUT}/replay/{prop}-diff-{h}.case"
         p = tmp + ".one"
@@ -779,7 +861,9 @@ def check(prop, tier, replay=None):
             f.write(f"# property {prop}: correspondence between coq/Model and /repo broken\n"
                     f"# ({len(diff_cases)} of {len(cases)} cases differ; first difference, shrunk)\n"
                     + "\n".join(txt) + "\n" + small + "\n")
-        violations.append((f"correspondence broken on {len(diff_cases)} cases", rp, functional_property(prop)))
+        violations.append((f"correspondence broken on {len(diff_cases)} cases"
+                           + ("" if obs_cases else " (only callback counters / fault-indexed variants differ: no observable difference on an honest history)"),
+                           rp, functional_property(prop) and bool(obs_cases)))
     if not replay and not violations:
         missing = surface_check(prop)
         if missing:
@@ -830,6 +914,23 @@ def check(prop, tier, replay=None):
         f"{len(rel_faults)} oracle faults, proofs {'ok' if gate_ok else 'NOT OK'} "
         f"({gate['discharged']}/{gate['obligations']}), {time.time() - t0:.0f}s")
     return 1 if violations else 0
+
+
+def honest_case(line):
+    """no lying == (adv = 0) and no injected fault (fault kind 0)"""
+    t = line.split(" ; ")[0].split()
+    return len(t) >= 4 and t[0] == "0" and t[2] == "0"
+
+
+def strip_internal(lines):
+    """the observation lines of a case without the callback counters printed after the marker 8890"""
+    out = []
+    for ln in lines or []:
+        t = ln.split()
+        if "8890" in t:
+            t = t[:t.index("8890")]
+        out.append(" ".join(t))
+    return out
 
 
 def functional_property(prop):
@@ -899,6 +1000,7 @@ def write_evidence(prop, tier, seed, gate, dist, cases, nt, validated, ksample, 
         "input_distribution": dist,
         "exhaustive": False,
         "source_files_vs_model_audit": source_audit(),
+        "stage_seconds": stage_seconds(),
         "notes": notes,
     }
     if level == "other":
